@@ -1079,6 +1079,11 @@ fn main() {
                 r
             }
             "const" if w.len() == 3 => d.add_const(w[1], w[2], opts.get("as").cloned(), cur),
+            // fuel <fn key> <coq nat term>
+            "fuel" if w.len() == 3 => {
+                d.tables.fuel_consts.insert(w[1].to_string(), w[2].to_string());
+                Ok(())
+            }
             "assoc" if w.len() == 3 => {
                 let t: R<Type> = syn::parse_str(w[2]).map_err(|e| e.to_string());
                 t.and_then(|t| d.conv(&t, &BTreeSet::new(), None, None)).map(|t| {
